@@ -195,6 +195,14 @@ def _finalize(obj):
         f.busy = False
 
 
+class CV(TV):
+    """Cycle value: a tracked value that refers BACK to the container it is
+    stored in (`doc.index = tree; tree[k] = doc`), so that container and
+    value can only be released by the cycle collector -- through the
+    extension's tp_traverse / tp_clear."""
+    __slots__ = ("back",)
+
+
 class FV(object):
     """Finalizing value: a fresh object stored under one key and referenced
     by nothing else, so it dies INSIDE the operation that drops it (replace,
